@@ -404,6 +404,34 @@ def hier_task(p, cfg, rec):
                          detail={'fault': k, 'wire': wname, 'raised': msg})
 
 
+def oddname_task(p, cfg, rec):
+    """child names that are different objects but print alike (a loop index 7 and the string '7', 1 and True ...): either the
+    second instantiation is refused, or both children are registered and each answers to its own, distinct name"""
+    n1, n2 = cfg['names']
+    with quiet():
+        s = py4hw.HWSystem()
+        x, y1, y2 = s.wire('x', 2), s.wire('y1', 2), s.wire('y2', 2)
+        c1 = Buf(s, n1, x, y1)
+        raised = None
+        try:
+            c2 = Buf(s, n2, x, y2)
+        except Exception as e:
+            raised = e
+    if raised is not None:
+        p.structural('a refused instantiation leaves the first child in place', s.children.get(n1) is c1 and c1.name == n1, detail={'raised': repr(raised)})
+        return
+    names = [c.name for c in s.children.values()]
+    p.structural('two accepted children have two different names', len(set(map(repr, names))) == len(names) and c1.name != c2.name,
+                 detail={'children names': [repr(n) for n in names]})
+    p.structural('every child is registered under the name it reports', all(c.name == k and type(c.name) is type(k) for k, c in s.children.items()),
+                 detail={'registry': [(repr(k), repr(c.name)) for k, c in s.children.items()]})
+    try:
+        paths = (c1.getFullPath(), c2.getFullPath())
+    except TypeError:
+        return                         # the path printer only takes string names; nothing more to compare
+    p.structural('the two children have different full paths', paths[0] != paths[1], detail={'path': paths[0]})
+
+
 def tasks_for(tier):
     quick = tier == 'quick'
     t = [('construction API, template %s, one operation' % k, construct_task, {'template': k, 'first': None}) for k in ('flat', 'two-level')]
@@ -429,6 +457,8 @@ def tasks_for(tier):
             continue
         t.append(('construction API, history starting with op%d parent%d name %s wire%d' % (f[0], f[1], POOL[f[2]], f[3]), construct_task,
                   {'template': 'flat', 'first': f}))
+    for names in ((7, '7'), ('7', 7), (1, '1'), ('a', 'a '), ('A', 'a'), (0, '0')):
+        t.append(('children named %r and %r' % names, oddname_task, {'names': names}))
     for v in ('plain', 'nested', 'scope', 'twins', 'samename'):
         t.append(('integrity of a structural hierarchy (%s), one removed driver at a symbolic position' % v, hier_task, {'variant': v}))
     for drv in list(DRIVERS)[1:]:
